@@ -1,3 +1,4 @@
+import GoRedisModel.Proofs.SourceFacts
 import GoRedisModel.Model.Lifecycle
 /-! # C09 — TLS client-certificate gate holds and failed handshakes are contained
 
@@ -133,5 +134,11 @@ theorem C09_credential_table (cfg : LifeCfg) (h : cfg.cn = some "client") :
     tlsServed cfg (certOf "intercn") = false ∧ tlsServed cfg (certOf "straycn") = false ∧
     tlsServed cfg (certOf "straygood") = false := by
   simp [tlsServed, certOf, h]
+
+/-- **The source is the one the model was written from** (regenerated on every run): the lifecycle functions (`Start`, `Stop`, `Restart`, `open`, `close`, `serve`, `tlsServe`, `startConn`) of the current source
+have the fingerprints recorded in the model; a change to any of them means the theorems above are not shown for the code
+as it is now, until the model has been compared with it again -/
+theorem C09_source_lifecycle_is_the_modelled_one :
+    lifecycleModelled.all (fun e => Generated.serverFingerprints.contains (e.1, e.2.1)) = true := source_lifecycle_is_the_modelled_one
 
 end GoRedis
